@@ -62,14 +62,17 @@
 //   (short-circuited connective, unused parameter, a quantifier that is decided by another element)
 //   may be undefined without making the whole undefined.  A quantifier is evaluated on ALL elements:
 //   it is decided if some element gives the deciding truth value, else FAIL if some element failed.
-//   EvalResult.sawFailure tells that SOME sub-evaluation performed by the oracle failed (class of
-//   the first one in firstFailClass, all classes met in failMask).  The real interpreter enumerates domains in its own order and
-//   stops early, so the sound two-sided check is:
+//   EvalResult.sawFailure tells that SOME sub-evaluation performed by the oracle failed (class of the
+//   first one in firstFailClass, all classes in failMask).  The real interpreter enumerates domains
+//   in its own order and stops early, so the sound two-sided check is:
 //     real returned a value  =>  oracle kind is not FAIL and the values agree (Same / truth), unless
-//                                oracle failClass is F_LIMIT / F_OVERFLOW (oracle inconclusive);
-//     real failed            =>  oracle kind is FAIL, or oracle.sawFailure (failure is justified),
-//                                or the real error is a documented resource limit.
+//                                oracle failClass is F_LIMIT / F_OVERFLOW / F_DEPTH (inconclusive);
+//     real failed            =>  oracle kind is FAIL, or a class in oracle.failMask justifies the
+//                                real error, or the real error is a documented resource limit.
 //   With sawFailure==false (the normal case) this is exact agreement.
+//   If failMask has F_OVERFLOW or F_DEPTH, running the real interpreter is undefined behaviour /
+//   stack overflow (known defects); F_MALFORMED on an expression the real auditor accepted means
+//   the auditor accepted an ill-typed expression (known for recursions whose type never stabilises).
 //
 // CODE CONSTRAINTS: header-only; no iostream/sstream/regex/locale/unordered containers/
 //   std::function/threads/static mutable state; throws nothing (TokenData accessors are guarded by
@@ -165,14 +168,10 @@ public:
 
   R Root(Cursor root) {
     if (root->id == TokenID::PUNC_DEFINE) {  // `D1:==expr` evaluates expr
-      if (root.ChildrenCount() != 2 || root(0).id != TokenID::ID_GLOBAL) {
-        return Fail(F_MALFORMED);
-      }
+      if (root.ChildrenCount() != 2 || root(0).id != TokenID::ID_GLOBAL) return Fail(F_MALFORMED);
       root = root.Child(1);
     }
-    if (!NamesDefined(root, nullptr, 0)) {
-      return Fail(F_MISSING);
-    }
+    if (!NamesDefined(root, nullptr, 0)) return Fail(F_MISSING);
     return Ev(root, nullptr);
   }
 
@@ -186,17 +185,13 @@ public:
     }
     if (it->id == TokenID::ID_LOCAL && params != nullptr && it->data.IsText()) {
       for (const auto& t : params->thunks) {
-        if (t.name == it->data.ToText()) {
-          return NamesDefined(t.expr, t.env, depth);
-        }
+        if (t.name == it->data.ToText()) return NamesDefined(t.expr, t.env, depth);
       }
       return true;
     }
     if (it->id == TokenID::NT_FUNC_CALL && it.ChildrenCount() >= 2 && it(0).data.IsText()) {
       const SyntaxTree* tree = FindFunction(it(0).data.ToText());
-      if (tree == nullptr || depth >= MAX_CALL_DEPTH) {
-        return false;
-      }
+      if (tree == nullptr || depth >= MAX_CALL_DEPTH) return false;
       Frame f{ nullptr };
       Cursor body = tree->Root();
       if (!BindParameters(it, params, *tree, f, body)) {
@@ -205,9 +200,7 @@ public:
       return NamesDefined(body, &f, depth + 1);
     }
     for (Index i = 0; i < it.ChildrenCount(); ++i) {
-      if (!NamesDefined(it.Child(i), params, depth)) {
-        return false;
-      }
+      if (!NamesDefined(it.Child(i), params, depth)) return false;
     }
     return true;
   }
@@ -237,17 +230,13 @@ public:
 
   const Value* FindGlobal(const std::string& name) const {
     for (const auto& g : env.globals) {
-      if (g.first == name) {
-        return &g.second;
-      }
+      if (g.first == name) return &g.second;
     }
     return nullptr;
   }
   const SyntaxTree* FindFunction(const std::string& name) const {
     for (const auto& f : env.functions) {
-      if (f.first == name) {
-        return f.second;
-      }
+      if (f.first == name) return f.second;
     }
     return nullptr;
   }
@@ -275,24 +264,18 @@ private:
     return r;
   }
   R Val(Value v) {
-    if (v.kind == Value::SET && v.items.size() > setLimit) {
-      return Fail(F_LIMIT);
-    }
+    if (v.kind == Value::SET && v.items.size() > setLimit) return Fail(F_LIMIT);
     R r;
     r.k = EvalResult::VALUE;
     r.v = std::move(v);
     return r;
   }
   R FromOpt(std::optional<Value> v, int fcIfEmpty) {
-    if (!v.has_value()) {
-      return Fail(fcIfEmpty);
-    }
+    if (!v.has_value()) return Fail(fcIfEmpty);
     return Val(std::move(v.value()));
   }
   bool Step() {
-    if (steps >= stepLimit) {
-      return false;
-    }
+    if (steps >= stepLimit) return false;
     ++steps;
     return true;
   }
@@ -300,23 +283,17 @@ private:
   // ---- typed child evaluation ----------------------------------------------------------------
   R EvLogic(Cursor it, const Frame* fr) {
     R r = Ev(it, fr);
-    if (r.k == EvalResult::VALUE) {
-      return Fail(F_MALFORMED);
-    }
+    if (r.k == EvalResult::VALUE) return Fail(F_MALFORMED);
     return r;
   }
   R EvVal(Cursor it, const Frame* fr) {
     R r = Ev(it, fr);
-    if (r.k == EvalResult::LOGIC) {
-      return Fail(F_MALFORMED);
-    }
+    if (r.k == EvalResult::LOGIC) return Fail(F_MALFORMED);
     return r;
   }
   R EvKind(Cursor it, const Frame* fr, Value::Kind kind) {
     R r = EvVal(it, fr);
-    if (r.k == EvalResult::VALUE && r.v.kind != kind) {
-      return Fail(F_MALFORMED);
-    }
+    if (r.k == EvalResult::VALUE && r.v.kind != kind) return Fail(F_MALFORMED);
     return r;
   }
   R EvSet(Cursor it, const Frame* fr) { return EvKind(it, fr, Value::SET); }
@@ -324,28 +301,20 @@ private:
 
   // ---- names -----------------------------------------------------------------------------------
   R Global(Cursor it) {
-    if (!it->data.IsText()) {
-      return Fail(F_MALFORMED);
-    }
+    if (!it->data.IsText()) return Fail(F_MALFORMED);
     const Value* value = FindGlobal(it->data.ToText());
     return value != nullptr ? Val(*value) : Fail(F_MISSING);
   }
 
   R Local(Cursor it, const Frame* fr) {
-    if (!it->data.IsText()) {
-      return Fail(F_MALFORMED);
-    }
+    if (!it->data.IsText()) return Fail(F_MALFORMED);
     const std::string& name = it->data.ToText();
     for (const Frame* f = fr; f != nullptr; f = f->parent) {
       for (size_t i = f->vals.size(); i-- > 0;) {
-        if (f->vals[i].first == name) {
-          return Val(f->vals[i].second);
-        }
+        if (f->vals[i].first == name) return Val(f->vals[i].second);
       }
       for (const auto& t : f->thunks) {
-        if (t.name == name) {
-          return Ev(t.expr, t.env);
-        }
+        if (t.name == name) return Ev(t.expr, t.env);
       }
     }
     return Fail(F_MALFORMED);
@@ -364,9 +333,7 @@ private:
   //! Bind declaration `x` or tuple pattern `(x,(y,z))` to value v by projection.
   static bool Bind(Cursor decl, const Value& v, Frame& f) {
     if (decl->id == TokenID::ID_LOCAL) {
-      if (!decl->data.IsText()) {
-        return false;
-      }
+      if (!decl->data.IsText()) return false;
       f.vals.emplace_back(decl->data.ToText(), v);
       return true;
     }
@@ -375,9 +342,7 @@ private:
       return false;
     }
     for (Index i = 0; i < decl.ChildrenCount(); ++i) {
-      if (!Bind(decl.Child(i), v.items[static_cast<size_t>(i)], f)) {
-        return false;
-      }
+      if (!Bind(decl.Child(i), v.items[static_cast<size_t>(i)], f)) return false;
     }
     return true;
   }
@@ -667,9 +632,7 @@ private:
 
   //! Q v[k]∈D Q v[k+1]∈D ... body, all elements evaluated; decided by any deciding element.
   R Quantifier(bool universal, const std::vector<Cursor>& vars, size_t k, const Value& dom, Cursor body, const Frame* fr) {
-    if (k == vars.size()) {
-      return EvLogic(body, fr);
-    }
+    if (k == vars.size()) return EvLogic(body, fr);
     bool decided = false;
     bool failed = false;
     int failClass = F_NONE;
@@ -820,9 +783,7 @@ inline EvalResult Eval(
 //! Convert a real value, reading it only through its public API. Sets are re-canonicalised, so the
 //  result does not depend on the real iteration order. (A real 1-component tuple stays a TUPLE.)
 inline Value FromSData(const ccl::object::StructuredData& sd) {
-  if (sd.IsElement()) {
-    return MakeElem(sd.E().Value());
-  }
+  if (sd.IsElement()) return MakeElem(sd.E().Value());
   if (sd.IsTuple()) {
     Value r;
     r.kind = Value::TUPLE;
@@ -842,30 +803,20 @@ inline Value FromSData(const ccl::object::StructuredData& sd) {
 //! Internal consistency of a real value: every set iterates exactly Cardinality() pairwise
 //  different elements and Contains() each of them.
 inline bool WellFormed(const ccl::object::StructuredData& sd) {
-  if (sd.IsElement()) {
-    return true;
-  }
+  if (sd.IsElement()) return true;
   if (sd.IsTuple()) {
     const auto arity = sd.T().Arity();
-    if (arity < 2) {
-      return false;
-    }
+    if (arity < 2) return false;
     for (ccl::rslang::Index i = 1; i <= arity; ++i) {
-      if (!WellFormed(sd.T().Component(i))) {
-        return false;
-      }
+      if (!WellFormed(sd.T().Component(i))) return false;
     }
     return true;
   }
-  if (!sd.IsCollection()) {
-    return false;
-  }
+  if (!sd.IsCollection()) return false;
   uint32_t count = 0;
   Value seen;
   for (const auto& e : sd.B()) {
-    if (!WellFormed(e) || !sd.B().Contains(e)) {
-      return false;
-    }
+    if (!WellFormed(e) || !sd.B().Contains(e)) return false;
     Insert(seen, FromSData(e));
     ++count;
   }
